@@ -12,7 +12,7 @@
 (* principal minors).  The scenario is emitted with the exact responses.   *)
 (***************************************************************************)
 EXTENDS CircGen, StateSpace
-CONSTANTS Ws
+CONSTANTS Ws, Light        \* Light: emit the scenario with its DC gains only (the transfer-function theorem is checked by the other configurations)
 
 WsQuick == {R0, Q(1,2), RI(2)}
 WsAll == {R0, Q(1,2), R1, RI(2), RI(10)}
@@ -24,11 +24,11 @@ Check == (ShapeC /\ InSSDomain(cs)) =>
         A == Amat(cs, ref)
         B == Bmat(cs, ref)
         outs == Outputs(cs)
-        okW == {w \in Ws : PhasorOK(cs, ref, w)}
+        okW == {w \in (IF Light THEN {R0} ELSE Ws) : PhasorOK(cs, ref, w)}
         resp == [w \in okW |-> [q \in 1..m |-> [o \in outs |-> Phasor(cs, ref, w, q, o)]]]
     IN
     /\ Assert(n = Cardinality(Caps(cs)) + Cardinality(Inds(cs)), "C10: state dimension")
-    /\ Assert(\A w \in okW : \A q \in 1..m : \A o \in outs : TF(cs, ref, A, B, w, q, o) = resp[w][q][o],
+    /\ Assert(Light \/ \A w \in okW : \A q \in 1..m : \A o \in outs : TF(cs, ref, A, B, w, q, o) = resp[w][q][o],
               "C10: transfer function of the substituted model differs from the phasor response")
     /\ Assert(NegSemiDef(Mmat(cs, A), n), "C11: W A + A^T W is not negative semidefinite")
     /\ Assert(\A r, k \in 1..n : CIsReal(A[r][k]), "state matrix must be real")
